@@ -89,6 +89,12 @@ func (r *propReport) reportBounded(e *Engine) {
 			fmt.Printf("BOUNDED property=%s name=%s cases=%d result=pass bound=%q (bounded stand-in, not a proof)\n", r.prop, b.Name, b.Cases, b.Bound)
 			continue
 		}
+		if kf := r.findKnown("bounded:" + b.Name); kf != nil {
+			kf.seen = true
+			r.knownHit = append(r.knownHit, "bounded:"+b.Name)
+			fmt.Printf("KNOWN-FINDING: property=%s bounded:%s %s\n", r.prop, b.Name, kf.text)
+			continue
+		}
 		dir := filepath.Join(r.verif, "replays", r.prop)
 		os.MkdirAll(dir, 0o755)
 		path := filepath.Join(dir, "bounded-"+b.Name+".txt")
